@@ -23,7 +23,7 @@
    melt quotes, esett = 1 iff the backend reports the quote's invoice settled, cnt id cred = internal settlements credited to it.
 *)
 From Coq Require Import ZArith List Bool.
-From Verif Require Import Model Sem InvDb InvSwap InvMint InvMelt Corollaries Queries Footprint HRel Global GlobalQuote GlobalValue GlobalErr GlobalQuery GlobalMelt GlobalKeys Cuts CutOrder Conc Races GlobalBalance GlobalLedger Reconf Trace Admin AdminProofs.
+From Verif Require Import Model Sem InvDb InvSwap InvMint InvMelt Corollaries Queries Footprint HRel Global GlobalQuote GlobalValue GlobalErr GlobalQuery GlobalMelt GlobalKeys Cuts CutOrder Conc Races GlobalBalance GlobalLedger Reconf GlobalPoll Trace Admin AdminProofs.
 Import ListNotations.
 Open Scope Z_scope.
 
@@ -155,4 +155,10 @@ Theorem C02_request_melt_quote_fee : forall (cfg : config) (u dc : bool) (req h 
        lq_msat q = part /\ lq_fee q = fee_reserve cfg ((part + 999) / 1000) /\ lq_amount q = (part + 999) / 1000.
 Proof. exact @request_melt_quote_fee. Qed.
 Print Assumptions C02_request_melt_quote_fee.
+
+Theorem C02_melt_amount_must_fit : forall (cfg : config) (mpp : option Z) (req h msat newid : Z) (w : world),
+       msat <= 0 \/ two63 <= msat ->
+       run (request_melt_quote cfg true true req h msat mpp newid) no_fault w = (w, Done (Err EInvoice)).
+Proof. exact @melt_amount_must_fit. Qed.
+Print Assumptions C02_melt_amount_must_fit.
 
